@@ -597,7 +597,11 @@ def rule_acq_use(fx, col):
                      (nm == 'new' and 'HybridProtection' in t['callee'].get('path', ''))
             if not is_use or not t['args']:
                 continue
-            org = b.origins(t['args'][0])
+            ai = 0
+            if nm == 'new':
+                from .protect import new_arg_positions
+                ai = new_arg_positions(t)[0]
+            org = b.origins(t['args'][ai])
             srcs = [by_bb[o[1]] for o in org if o[0] == 'call' and o[1] in by_bb]
             if not srcs:
                 continue
